@@ -79,6 +79,17 @@ Example C04_example :
   end.
 Proof. vm_compute. repeat split. Qed.
 
+(* the verdict depends on nothing but the content and, per signer entry, the name,
+   the signed attributes as they stand in the blob with their messageDigest, and
+   the signature: rewriting version numbers, algorithm identifiers, certificates
+   or unauthenticated fields -- whatever no signature covers -- never turns a
+   rejection into an acceptance (or the reverse) *)
+Theorem C04_depends_only_on : forall rsa_ok p p' c,
+  p_content p = p_content p' -> map signed_view (p_signers p) = map signed_view (p_signers p') ->
+  pkcs7_verify rsa_ok p c = pkcs7_verify rsa_ok p' c.
+Proof. exact verify_depends_only_on. Qed.
+
+Print Assumptions C04_depends_only_on.
 Print Assumptions C04_sound.
 Print Assumptions C04_sound_spec.
 Print Assumptions C04_exact.
